@@ -179,3 +179,71 @@ Definition unpack_events (reads : list N) : list cev := EvZeroR :: map EvRead re
 Definition pack_events (len : N) : list cev := [EvZeroW; EvWrite len].
 
 Fixpoint sumN (l : list N) : N := match l with [] => 0 | x :: r => x + sumN r end.
+
+(* ---- both counters, both reset sites, both size sites: Pack and Unpack of ONE protocol
+        object as two sequential programs over the shared ReadWriteCounter, interleaved ----
+   binary_proto.go binaryPack:   t.rwCounter.WriteCounter.Zero() ... Write* ... SetSize(Writed())
+   binary_proto.go binaryUnpack: t.rwCounter.ReadCounter.Zero()  ... Read*  ... SetSize(Readed())
+   struct_proto.go structPack / structUnpack: the same two sites on the same counter type.
+   Which counter(s) a reset site zeroes is a parameter ([sites]) so that the variants that
+   share a zero (ReadWriteCounter.Zero on one side, or the other side's counter) are
+   expressible and refutable. *)
+Inductive zkind := ZR | ZW | ZB.   (* ReadCounter.Zero | WriteCounter.Zero | ReadWriteCounter.Zero *)
+
+Record sites := mkSites { pack_zero : zkind; unpack_zero : zkind }.
+
+Definition bin_sites : sites := mkSites ZW ZR.      (* binaryPack, binaryUnpack *)
+Definition struct_sites : sites := mkSites ZW ZR.   (* structPack, structUnpack *)
+
+Definition zev (k : zkind) : cev :=
+  match k with ZR => EvZeroR | ZW => EvZeroW | ZB => EvZeroBoth end.
+
+Inductive xev :=
+| XPackBegin             (* Pack reaches its reset site *)
+| XWrite (n : N)         (* one Write of n bytes of the frame went through the counter *)
+| XPackEnd               (* Pack reads the write counter: m.SetSize(uint32(Writed())) *)
+| XUnpackBegin           (* Unpack reaches its reset site *)
+| XRead (n : N)          (* one Read delivered n bytes through the counter *)
+| XUnpackEnd.            (* Unpack reads the read counter: m.SetSize(uint32(Readed())) *)
+
+Inductive xobs := OPacked (size : N) | OUnpacked (size : N).
+
+Definition u32 (n : N) : N := n mod 4294967296.
+
+Definition xstep (s : sites) (c : ctr) (e : xev) : ctr * list xobs :=
+  match e with
+  | XPackBegin => (cstep c (zev (pack_zero s)), [])
+  | XWrite n => (cstep c (EvWrite n), [])
+  | XPackEnd => (c, [OPacked (u32 (c_written c))])
+  | XUnpackBegin => (cstep c (zev (unpack_zero s)), [])
+  | XRead n => (cstep c (EvRead n), [])
+  | XUnpackEnd => (c, [OUnpacked (u32 (c_read c))])
+  end.
+
+Fixpoint xrun (s : sites) (c : ctr) (evs : list xev) : list xobs :=
+  match evs with
+  | [] => []
+  | e :: r => let '(c', o) := xstep s c e in o ++ xrun s c' r
+  end.
+
+(* the events of the packing goroutine / of the unpacking goroutine *)
+Definition pside (e : xev) : bool :=
+  match e with XPackBegin | XWrite _ | XPackEnd => true | _ => false end.
+Definition uside (e : xev) : bool := negb (pside e).
+
+Definition is_opacked (o : xobs) : bool := match o with OPacked _ => true | _ => false end.
+Definition is_ounpacked (o : xobs) : bool := negb (is_opacked o).
+
+(* one whole Pack writing its frame in Writes of the given sizes; one whole Unpack *)
+Definition pack_trace (ws : list N) : list xev := XPackBegin :: map XWrite ws ++ [XPackEnd].
+Definition unpack_trace (rs : list N) : list xev := XUnpackBegin :: map XRead rs ++ [XUnpackEnd].
+
+(* the property for one choice of reset sites: in EVERY interleaving of whole Packs with whole
+   Unpacks, from every counter state, every packed / unpacked message is reported with the
+   byte length of its own frame *)
+Definition sizes_own (s : sites) : Prop :=
+  forall evs c pf uf,
+    List.filter pside evs = concat (map pack_trace pf) ->
+    List.filter uside evs = concat (map unpack_trace uf) ->
+    List.filter is_opacked (xrun s c evs) = map (fun ws => OPacked (u32 (sumN ws))) pf /\
+    List.filter is_ounpacked (xrun s c evs) = map (fun rs => OUnpacked (u32 (sumN rs))) uf.
